@@ -18,7 +18,7 @@
 (* The require graph may contain shared modules (diamonds), chains, cycles *)
 (* and repeated requires: the shapes that the project scan must handle.    *)
 (***************************************************************************)
-EXTENDS Integers, Sequences, FiniteSets, TLC, Json
+EXTENDS Integers, Sequences, FiniteSets, TLC, Json, SequencesExt
 
 CONSTANTS MaxReq     \* total number of require statements
 
@@ -51,6 +51,73 @@ Members == Reach({"main"})
 
 Covered == Members = Files
 
+(***************************************************************************)
+(* Load order.  As built, the project pass is not a workspace-wide lookup   *)
+(* but an execution-order analysis: it walks the entry file, enters a       *)
+(* required file at its first require statement (a file already entered is *)
+(* not entered again), and a top-level read sees only the globals whose     *)
+(* defining statements have been passed by then.  Every file here has the   *)
+(* shape  requires ; definitions ; reads  , so what the reads of f see is   *)
+(* the set of files whose definitions were passed when f's reads are        *)
+(* reached: f itself and every file completed earlier.  A file still being  *)
+(* walked further up the require chain (an ancestor of f) has not reached   *)
+(* its definitions yet.                                                     *)
+(***************************************************************************)
+\* walk state: entered files, completed files in order, modules whose require statement has returned, and what each
+\* file's reads saw.  A plain global (g = 1, function fn() end) enters the project's table when a require of its file
+\* returns -- which, for a file that is still being walked (a require cycle), is at once; a _G global (_G.h = 2)
+\* enters it when its defining statement is passed.
+RECURSIVE Walk(_, _), WalkReqs(_, _, _)
+WalkReqs(f, i, st) ==
+    IF i > Len(req[f]) THEN st
+    ELSE LET g == req[f][i]
+             s1 == IF g \in st.entered THEN st ELSE Walk(g, st)
+         IN WalkReqs(f, i + 1, [s1 EXCEPT !.ret = @ \cup {g}])
+Walk(f, st) ==
+    LET s1 == [st EXCEPT !.entered = @ \cup {f}]
+        s2 == WalkReqs(f, 1, s1)
+    IN [s2 EXCEPT !.done = Append(@, f),
+                  !.saw = [@ EXCEPT ![f] = {s2.done[k] : k \in 1..Len(s2.done)} \cup {f}],
+                  !.sawp = [@ EXCEPT ![f] = s2.ret \cup {f}]]
+Final == Walk("main", [entered |-> {}, done |-> <<>>, ret |-> {}, saw |-> [f \in Files |-> {}], sawp |-> [f \in Files |-> {}]])
+LoadOrder == Final.done          \* files in the order their definitions are passed
+Saw == Final.saw                 \* Saw[f]: files whose _G globals f's top-level reads see in project mode
+SawPlain == Final.sawp           \* SawPlain[f]: files whose plain globals they see
+
+\* model facts: every file sees itself; the entry, completed last, sees every member; what is seen was completed
+SawSelf == \A f \in Members : f \in Saw[f]
+EntrySeesAll == Saw["main"] = Members
+\* completed files were required, so their plain globals are seen too; cycles make plain sight strictly larger
+PlainSeesMore == \A f \in Members : (Saw[f] \ {"main"}) \subseteq SawPlain[f]
+SawSound == \A f \in Members : Saw[f] \subseteq Members
+OrderIsMembers == {LoadOrder[k] : k \in 1..Len(LoadOrder)} = Members /\ Len(LoadOrder) = Cardinality(Members)
+\* a file never sees a file that (transitively) required it before completing: no two files see each other unless equal
+NoMutualSight == \A f, g \in Members : f # g /\ g \in Saw[f] => f \notin Saw[g]
+
+(***************************************************************************)
+(* What a top-level read in file f of a global declared by file d resolves *)
+(* to.  Ideal (the listed properties): the declaration, always -- every     *)
+(* file of the workspace is searched.  As built, in project mode:          *)
+(*   "ok"      the declaration was passed before the read: resolved, silent *)
+(*   "cycle"   the declaration exists in the project's tables but is passed *)
+(*             later in the load order: resolved, but reported (type 3)     *)
+(*   "unknown" a plain global (not written _G.x) of the entry file: plain   *)
+(*             globals enter the project's table when their file is         *)
+(*             required, and nobody requires the entry: invisible to every  *)
+(*             other file (type 2, no definition, not among the references) *)
+(***************************************************************************)
+Kinds == {"g", "h", "fn"}       \* g_x = 1 ; _G.h_x = 2 ; function fn_x() end
+Ideal(f, d, k) == "ok"
+AsBuilt(f, d, k) ==
+    IF f = d THEN "ok"
+    ELSE IF k # "h" /\ d = "main" THEN "unknown"
+    ELSE IF k = "h" THEN (IF d \in Saw[f] THEN "ok" ELSE "cycle")
+    ELSE IF d \in SawPlain[f] THEN "ok" ELSE "cycle"
+\* model facts: the entry file resolves everything; a file's own globals always resolve; _G globals never get lost
+EntryResolvesAll == Covered => \A d \in Files, k \in Kinds : AsBuilt("main", d, k) = "ok"
+GNeverUnknown == \A f, d \in Files : AsBuilt(f, d, "h") # "unknown"
+Deviates == \E f, d \in Files, k \in Kinds : AsBuilt(f, d, k) # Ideal(f, d, k)
+
 \* model facts: the entry is always a member; membership only grows with more requires
 EntryMember == "main" \in Members
 TypeOK == Total <= MaxReq /\ \A f \in Files : Len(req[f]) <= 3
@@ -60,6 +127,8 @@ Shared == \E g \in Files : Cardinality({f \in Files : \E i \in 1..Len(req[f]) : 
 Repeated == \E f \in Files : \E i, j \in 1..Len(req[f]) : i # j /\ req[f][i] = req[f][j]
 
 Emit == IF Covered
-        THEN PrintT("@@J " \o ToJson([fam |-> "project", req |-> req, shared |-> Shared, repeated |-> Repeated]))
+        THEN PrintT("@@J " \o ToJson([fam |-> "project", req |-> req, shared |-> Shared, repeated |-> Repeated,
+                                       order |-> LoadOrder, saw |-> [f \in Files |-> SetToSeq(Saw[f])],
+                                       asbuilt |-> [f \in Files |-> [d \in Files |-> [k \in Kinds |-> AsBuilt(f, d, k)]]]]))
         ELSE TRUE
 =============================================================================
